@@ -73,6 +73,10 @@ def gen_raw(seed):
     dt = RDT[int(rng.integers(0, 3))]
     be = ['flat', 'flat', 'cbin', 'npy', 'array'][int(rng.integers(0, 5))]
     A = L.unique_cells(n, nc, dt)
+    if np.dtype(dt).kind == 'f' and seed[-1] % 4 == 1 and be != 'cbin':      # (mtscomp's own compressor asserts on NaN)
+        # non-finite samples (saturated / missing data), also on the last channel
+        A[rng.integers(0, n, size=max(1, n // 6)), -1] = [np.nan, np.inf, -np.inf][seed[-1] % 3]
+        A[int(rng.integers(0, n)), 0] = np.nan
     chunk = int([1, 2, 3, 5, max(1, n - 1), n, n + 7][int(rng.integers(0, 7))])
     k = int(rng.integers(1, 4))
     parts = [n]
@@ -154,6 +158,7 @@ def _raw(case, ctx, d):
     from phylib.utils import Bunch
     g = gen_raw(case['seed'])
     A, n, nsw, samples, rows = g['A'], g['n'], g['nsw'], g['samples'], g['rows']
+    nc_ = g['nc']
     a = nsw // 2
     padded = bool(((samples.astype(np.int64) - a) < 0).any() or ((samples.astype(np.int64) - a + nsw) > n).any())
     inner = set(g['bounds'][1:-1]) | set(b - 1 for b in g['bounds'][1:-1])
@@ -193,6 +198,21 @@ def _raw(case, ctx, d):
         if list(np.asarray(common).tolist()) != list(g['common']) or not np.array_equal(samples, samples0):
             ctx.violation('inputs_modified', desc, 'extract_waveforms modified the channel / sample arrays of the caller', fa)
             break
+    # ---- route (a'): two readers derived from the same reader read the same windows (shared state between clones)
+    if nc_ >= 2:
+        perm = np.roll(np.arange(nc_), 1)
+        sib1, sib2 = rd[:, perm], rd[:, ::-1]
+        monitors.CURRENT.readers.register(sib1, lambda A=A, perm=perm: A[:, perm], allow_list=g['backend'] != 'cbin', label='sibling')
+        monitors.CURRENT.readers.register(sib2, lambda A=A: A[:, ::-1], allow_list=g['backend'] != 'cbin', label='sibling')
+        chs = list(range(nc_))
+        for tag, srd, At in (('perm', sib1, A[:, perm]), ('reversed', sib2, A[:, ::-1]), ('base', rd, A)):
+            rs = call(extract_waveforms, srd, samples, chs, n_samples_waveforms=nsw)
+            es = windows(At, samples, nsw, [chs] * len(samples))
+            if not rs.ok or same(rs.value, es):
+                ctx.violation('window_mismatch' if rs.ok else 'route_raised', desc,
+                              'extract_waveforms on a %s reader derived from the same recording: %s' % (
+                                  tag, rs.exc if not rs.ok else same(rs.value, es)), dict(feats, route='sibling_readers'), tb=rs.tb)
+                break
     # ---- route (b): chunk-by-chunk export ---------------------------------------------------------
     path = os.path.join(d, 'wf.npy')
     factor = g['factor']
@@ -235,7 +255,7 @@ def _raw(case, ctx, d):
                 for j, c in enumerate(qch.tolist()):
                     if c in stored:
                         e = window(A, samples[o], nsw, [c])[:, 0].astype(np.float64) * factor
-                        if not np.array_equal(out[i, :, j], e):
+                        if not np.array_equal(out[i, :, j], e, equal_nan=True):
                             ctx.violation('window_mismatch', desc,
                                           'store lookup: spike %d channel %d: %r != %r' % (o, c, out[i, :, j].tolist(), e.tolist()), fc)
                             break
